@@ -920,4 +920,290 @@ theorem CBitSet.removeRange_inv (s : CBitSet) (a b : Nat) (h : CInv s) : CInv (s
   · rw [CBitSet.removeRange_abs s a b h]
     exact (BitSet.removeRange_spec _ a b (CBitSet.abs_inv s h)).1
 
+/-! ### `extend` / `extend_unsorted` / `remove_all` -/
+
+/-- the same pages and map with another cached `length` -/
+def CBitSet.withLen (s : CBitSet) (L : Nat) : CBitSet := ⟨s.pages, s.pageMap, L⟩
+
+theorem ensure_withLen (s : CBitSet) (L m : Nat) :
+    (s.withLen L).ensurePageIndexForMajor m =
+      ((s.ensurePageIndexForMajor m).1.withLen L, (s.ensurePageIndexForMajor m).2) := by
+  unfold CBitSet.ensurePageIndexForMajor CBitSet.withLen
+  simp only []
+  split <;> rfl
+
+theorem ensure_len (s : CBitSet) (m : Nat) : (s.ensurePageIndexForMajor m).1.len = s.len := by
+  unfold CBitSet.ensurePageIndexForMajor
+  simp only []
+  split <;> rfl
+
+theorem pageIndexForMajor_congr (s t : CBitSet) (m : Nat) (h : s.pageMap = t.pageMap) :
+    s.pageIndexForMajor m = t.pageIndexForMajor m := by
+  unfold CBitSet.pageIndexForMajor
+  rw [h]
+
+theorem majorOf_ne_max {v : Nat} (hv : v < 2 ^ 32) : majorOf v ≠ U32_MAX := by
+  unfold majorOf U32_MAX; omega
+
+/-! #### folds of `insert` / `remove` -/
+
+theorem foldInsert_spec (vs : List Nat) (s : CBitSet) (h : CInv s) :
+    CInv (vs.foldl (fun acc v => (acc.insert v).1) s) ∧
+    (vs.foldl (fun acc v => (acc.insert v).1) s).abs = s.abs.extend vs := by
+  induction vs generalizing s with
+  | nil => exact ⟨h, rfl⟩
+  | cons v vs ih =>
+    obtain ⟨i1, i2⟩ := ih _ (CBitSet.insert_inv s v h)
+    simp only [List.foldl_cons]
+    refine ⟨i1, ?_⟩
+    rw [i2, (CBitSet.insert_abs s v h).1, BitSet.extend_cons]
+
+theorem foldRemove_spec (vs : List Nat) (s : CBitSet) (h : CInv s) :
+    CInv (vs.foldl (fun acc v => (acc.remove v).1) s) ∧
+    (vs.foldl (fun acc v => (acc.remove v).1) s).abs = s.abs.removeAll vs := by
+  induction vs generalizing s with
+  | nil => exact ⟨h, rfl⟩
+  | cons v vs ih =>
+    obtain ⟨i1, i2⟩ := ih _ (CBitSet.remove_inv s v h)
+    simp only [List.foldl_cons]
+    refine ⟨i1, ?_⟩
+    rw [i2, (CBitSet.remove_abs s v h).1, BitSet.removeAll_cons]
+
+/-! #### `extend_unsorted`: the `is_new` flags are summed and added at the end -/
+
+/-- the loop body of `extend_unsorted` -/
+def euStep (st : CBitSet × Nat) (v : Nat) : CBitSet × Nat :=
+  let e := st.1.ensurePageIndexForMajor (majorOf v)
+  let q := (e.1.pages.getD e.2 CPage.zero).insert v
+  (⟨e.1.pages.set e.2 q.1, e.1.pageMap, e.1.len⟩, st.2 + (if q.2 then 1 else 0))
+
+theorem euStep_eq (st : CBitSet × Nat) (v : Nat) :
+    (euStep st v).1.withLen ((euStep st v).1.len + (euStep st v).2) =
+      ((st.1.withLen (st.1.len + st.2)).insert v).1 := by
+  unfold euStep CBitSet.insert
+  simp only []
+  rw [ensure_withLen]
+  simp only [CBitSet.withLen, ensure_len, Nat.add_assoc]
+  rfl
+
+theorem extendUnsorted_fold (vs : List Nat) (st : CBitSet × Nat) :
+    (vs.foldl euStep st).1.withLen ((vs.foldl euStep st).1.len + (vs.foldl euStep st).2) =
+      vs.foldl (fun acc v => (acc.insert v).1) (st.1.withLen (st.1.len + st.2)) := by
+  induction vs generalizing st with
+  | nil => rfl
+  | cons v vs ih =>
+    simp only [List.foldl_cons]
+    rw [ih, euStep_eq]
+
+/-- `extend_unsorted` = inserting the values one by one -/
+theorem CBitSet.extendUnsorted_eq (s : CBitSet) (vs : List Nat) :
+    s.extendUnsorted vs = vs.foldl (fun acc v => (acc.insert v).1) s := by
+  have := extendUnsorted_fold vs (s, 0)
+  exact this
+
+theorem CBitSet.extendUnsorted_inv (s : CBitSet) (vs : List Nat) (h : CInv s) :
+    CInv (s.extendUnsorted vs) := by
+  rw [CBitSet.extendUnsorted_eq]; exact (foldInsert_spec vs s h).1
+
+theorem CBitSet.extendUnsorted_abs (s : CBitSet) (vs : List Nat) (h : CInv s) :
+    (s.extendUnsorted vs).abs = s.abs.extend vs := by
+  rw [CBitSet.extendUnsorted_eq]; exact (foldInsert_spec vs s h).2
+
+/-! #### `BitSetBuilder`: the cached page index -/
+
+/-- a map entry is what `ensure_page_index_for_major` finds (without changing the set) -/
+theorem ensure_of_mem (s : CBitSet) (h : CInvS s.pageMap s.pages) {M idx : Nat}
+    (hm : (M, idx) ∈ s.pageMap) : s.ensurePageIndexForMajor M = (s, idx) := by
+  obtain ⟨_, _, _, _, s5, s6⟩ := searchMap_spec s.pageMap h.sorted M
+  unfold CBitSet.ensurePageIndexForMajor
+  simp only []
+  cases hr : (searchMap s.pageMap M).1
+  · exact absurd rfl (s6 hr _ hm)
+  · simp only [if_true]
+    obtain ⟨j1, j2⟩ := s5 hr
+    have := (map_entry_unique h.sorted h.idxNodup hm _ (getD_mem_of_lt j1)).2 j2
+    rw [this]
+
+/-- the cache of `BitSetBuilder` is valid: it is still the sentinel, or the cached index is
+exactly what `ensure_page_index_for_major(last_major_value)` returns on the current set (and
+that call would not change the set) -/
+def CBuilder.CacheOk (b : CBuilder) : Prop :=
+  b.lastMajorValue = U32_MAX ∨
+    b.set.ensurePageIndexForMajor b.lastMajorValue = (b.set, b.lastPageIndex)
+
+theorem CBuilder.insert_spec (b : CBuilder) (v : Nat) (h : CInv b.set) (hc : b.CacheOk)
+    (hv : majorOf v ≠ U32_MAX) :
+    (b.insert v).set = (b.set.insert v).1 ∧ (b.insert v).CacheOk := by
+  have hinv := CBitSet.insert_inv b.set v h
+  obtain ⟨e1, e2, e3, e4⟩ := CBitSet.ensure_spec b.set (majorOf v) h
+  -- in both cases the index used is the one `ensure_page_index_for_major` returns
+  have key : ∀ b1 : CBuilder, b1.set = (b.set.ensurePageIndexForMajor (majorOf v)).1 →
+      b1.lastPageIndex = (b.set.ensurePageIndexForMajor (majorOf v)).2 →
+      b1.lastMajorValue = majorOf v →
+      (if b1.lastPageIndex < b1.set.pages.length then
+        (⟨⟨b1.set.pages.set b1.lastPageIndex ((b1.set.pages.getD b1.lastPageIndex CPage.zero).insert v).1,
+            b1.set.pageMap,
+            b1.set.len + (if ((b1.set.pages.getD b1.lastPageIndex CPage.zero).insert v).2 then 1 else 0)⟩,
+          b1.lastPageIndex, b1.lastMajorValue⟩ : CBuilder)
+       else b1).set = (b.set.insert v).1 ∧
+      (if b1.lastPageIndex < b1.set.pages.length then
+        (⟨⟨b1.set.pages.set b1.lastPageIndex ((b1.set.pages.getD b1.lastPageIndex CPage.zero).insert v).1,
+            b1.set.pageMap,
+            b1.set.len + (if ((b1.set.pages.getD b1.lastPageIndex CPage.zero).insert v).2 then 1 else 0)⟩,
+          b1.lastPageIndex, b1.lastMajorValue⟩ : CBuilder)
+       else b1).CacheOk := by
+    intro b1 h1 h2 h3
+    rw [h1, h2, if_pos e3]
+    refine ⟨rfl, Or.inr ?_⟩
+    simp only []
+    rw [h3]
+    exact ensure_of_mem (b.set.insert v).1 hinv.toS e4
+  unfold CBuilder.insert
+  simp only []
+  by_cases hm : majorOf v ≠ b.lastMajorValue
+  · rw [if_pos hm]
+    exact key _ rfl rfl rfl
+  · rw [if_neg hm]
+    have hm' : majorOf v = b.lastMajorValue := Classical.not_not.1 hm
+    rcases hc with hc | hc
+    · exact absurd (hm'.trans hc) hv
+    · rw [← hm'] at hc
+      exact key b (by rw [hc]) (by rw [hc]) hm'.symm
+
+theorem builder_fold (vs : List Nat) (b : CBuilder) (h : CInv b.set) (hc : b.CacheOk)
+    (hv : ∀ v ∈ vs, v < 2 ^ 32) :
+    (vs.foldl CBuilder.insert b).CacheOk ∧
+    (vs.foldl CBuilder.insert b).set = vs.foldl (fun acc v => (acc.insert v).1) b.set := by
+  induction vs generalizing b with
+  | nil => exact ⟨hc, rfl⟩
+  | cons v vs ih =>
+    obtain ⟨s1, s2⟩ := CBuilder.insert_spec b v h hc (majorOf_ne_max (hv v (by simp)))
+    simp only [List.foldl_cons]
+    have := ih (b.insert v) (by rw [s1]; exact CBitSet.insert_inv _ v h) s2
+      (fun w hw => hv w (by simp [hw]))
+    rw [s1] at this
+    exact this
+
+/-- `impl Extend<u32> for BitSet` (through `BitSetBuilder`) = inserting the values one by one -/
+theorem CBitSet.extend_eq (s : CBitSet) (vs : List Nat) (h : CInv s) (hv : ∀ v ∈ vs, v < 2 ^ 32) :
+    s.extend vs = vs.foldl (fun acc v => (acc.insert v).1) s :=
+  (builder_fold vs (CBuilder.start s) h (Or.inl rfl) hv).2
+
+theorem CBitSet.extend_inv (s : CBitSet) (vs : List Nat) (h : CInv s) (hv : ∀ v ∈ vs, v < 2 ^ 32) :
+    CInv (s.extend vs) := by
+  rw [CBitSet.extend_eq s vs h hv]; exact (foldInsert_spec vs s h).1
+
+theorem CBitSet.extend_abs (s : CBitSet) (vs : List Nat) (h : CInv s) (hv : ∀ v ∈ vs, v < 2 ^ 32) :
+    (s.extend vs).abs = s.abs.extend vs := by
+  rw [CBitSet.extend_eq s vs h hv]; exact (foldInsert_spec vs s h).2
+
+/-! #### `remove_all`: the cached page index and the deferred `length` update -/
+
+/-- the cache of `remove_all` is valid: still the sentinel, or the cached `Option` index is what
+`page_index_for_major(last_major_value)` returns on the current set -/
+def CRemoveAll.CacheOk (st : CRemoveAll) : Prop :=
+  st.lastMajorValue = U32_MAX ∨ st.lastPageIndex = st.set.pageIndexForMajor st.lastMajorValue
+
+/-- the set `remove_all` would return if the loop stopped here -/
+def CRemoveAll.result (st : CRemoveAll) : CBitSet := st.set.withLen (st.set.len - st.totalRemoved)
+
+theorem CRemoveAll.step_spec (st : CRemoveAll) (v : Nat) (hc : st.CacheOk) (hv : majorOf v ≠ U32_MAX) :
+    (st.step v).CacheOk ∧ (st.step v).result = (st.result.remove v).1 := by
+  -- in both cases the index used is `page_index_for_major(major)` on the current set
+  have key : ∀ st1 : CRemoveAll, st1.set = st.set → st1.totalRemoved = st.totalRemoved →
+      st1.lastMajorValue = majorOf v → st1.lastPageIndex = st.set.pageIndexForMajor (majorOf v) →
+      (match st1.lastPageIndex with
+        | none => st1
+        | some idx =>
+          if idx < st1.set.pages.length then
+            { st1 with set := ⟨st1.set.pages.set idx ((st1.set.pages.getD idx CPage.zero).remove v).1,
+                               st1.set.pageMap, st1.set.len⟩,
+                       totalRemoved := st1.totalRemoved +
+                         (if ((st1.set.pages.getD idx CPage.zero).remove v).2 then 1 else 0) }
+          else st1).CacheOk ∧
+      (match st1.lastPageIndex with
+        | none => st1
+        | some idx =>
+          if idx < st1.set.pages.length then
+            { st1 with set := ⟨st1.set.pages.set idx ((st1.set.pages.getD idx CPage.zero).remove v).1,
+                               st1.set.pageMap, st1.set.len⟩,
+                       totalRemoved := st1.totalRemoved +
+                         (if ((st1.set.pages.getD idx CPage.zero).remove v).2 then 1 else 0) }
+          else st1).result = (st.result.remove v).1 := by
+    intro st1 h1 h2 h3 h4
+    have hpi : st.result.pageIndexForMajor (majorOf v) = st.set.pageIndexForMajor (majorOf v) := rfl
+    unfold CBitSet.remove
+    rw [hpi, h4]
+    cases hi : st.set.pageIndexForMajor (majorOf v) with
+    | none =>
+      simp only []
+      refine ⟨Or.inr (by rw [h4, h3, h1, hi]), ?_⟩
+      simp only [CRemoveAll.result, h1, h2]
+    | some idx =>
+      simp only []
+      rw [h1]
+      by_cases hlt : idx < st.set.pages.length
+      · have hlt' : idx < st.result.pages.length := hlt
+        rw [if_pos hlt, if_pos hlt']
+        refine ⟨Or.inr ?_, ?_⟩
+        · simp only []
+          rw [h3]
+          exact ((pageIndexForMajor_congr _ _ _ rfl).trans hi).symm
+        · simp only [CRemoveAll.result, CBitSet.withLen, h2, Nat.sub_sub]
+          rfl
+      · have hlt' : ¬ idx < st.result.pages.length := hlt
+        rw [if_neg hlt, if_neg hlt']
+        refine ⟨Or.inr (by rw [h4, h3, h1, hi]), ?_⟩
+        simp only [CRemoveAll.result, h1, h2]
+  unfold CRemoveAll.step
+  simp only []
+  by_cases hm : majorOf v ≠ st.lastMajorValue
+  · rw [if_pos hm]
+    exact key _ rfl rfl rfl rfl
+  · rw [if_neg hm]
+    have hm' : majorOf v = st.lastMajorValue := Classical.not_not.1 hm
+    rcases hc with hc | hc
+    · exact absurd (hm'.trans hc) hv
+    · exact key st rfl rfl hm'.symm (by rw [hc, hm'])
+
+theorem removeAll_fold (vs : List Nat) (st : CRemoveAll) (hc : st.CacheOk) (hv : ∀ v ∈ vs, v < 2 ^ 32) :
+    (vs.foldl CRemoveAll.step st).CacheOk ∧
+    (vs.foldl CRemoveAll.step st).result = vs.foldl (fun acc v => (acc.remove v).1) st.result := by
+  induction vs generalizing st with
+  | nil => exact ⟨hc, rfl⟩
+  | cons v vs ih =>
+    obtain ⟨s1, s2⟩ := CRemoveAll.step_spec st v hc (majorOf_ne_max (hv v (by simp)))
+    simp only [List.foldl_cons]
+    have := ih (st.step v) s1 (fun w hw => hv w (by simp [hw]))
+    rw [s2] at this
+    exact this
+
+/-- `remove_all` = removing the values one by one -/
+theorem CBitSet.removeAll_eq (s : CBitSet) (vs : List Nat) (hv : ∀ v ∈ vs, v < 2 ^ 32) :
+    s.removeAll vs = vs.foldl (fun acc v => (acc.remove v).1) s :=
+  (removeAll_fold vs ⟨s, none, U32_MAX, 0⟩ (Or.inl rfl) hv).2
+
+theorem CBitSet.removeAll_inv (s : CBitSet) (vs : List Nat) (h : CInv s) (hv : ∀ v ∈ vs, v < 2 ^ 32) :
+    CInv (s.removeAll vs) := by
+  rw [CBitSet.removeAll_eq s vs hv]; exact (foldRemove_spec vs s h).1
+
+theorem CBitSet.removeAll_abs (s : CBitSet) (vs : List Nat) (h : CInv s) (hv : ∀ v ∈ vs, v < 2 ^ 32) :
+    (s.removeAll vs).abs = s.abs.removeAll vs := by
+  rw [CBitSet.removeAll_eq s vs hv]; exact (foldRemove_spec vs s h).2
+
+/-- The two page-index caches are transparent.  `BitSetBuilder` (`impl Extend`): along the fold
+the cached `last_page_index` is always what `ensure_page_index_for_major(last_major_value)`
+returns on the current set, so the builder's set is the fold of `insert`.  `remove_all`: the
+cached `Option` index is always `page_index_for_major(last_major_value)` on the current set, so
+the result (with the deferred `length -= total_removed`) is the fold of `remove`. -/
+theorem page_index_cache_transparent :
+    (∀ (s : CBitSet) (vs : List Nat), CInv s → (∀ v ∈ vs, v < 2 ^ 32) →
+      (vs.foldl CBuilder.insert (CBuilder.start s)).CacheOk ∧
+      s.extend vs = vs.foldl (fun acc v => (acc.insert v).1) s) ∧
+    (∀ (s : CBitSet) (vs : List Nat), (∀ v ∈ vs, v < 2 ^ 32) →
+      (vs.foldl CRemoveAll.step ⟨s, none, U32_MAX, 0⟩).CacheOk ∧
+      s.removeAll vs = vs.foldl (fun acc v => (acc.remove v).1) s) :=
+  ⟨fun s vs h hv => builder_fold vs (CBuilder.start s) h (Or.inl rfl) hv,
+   fun s vs hv => removeAll_fold vs ⟨s, none, U32_MAX, 0⟩ (Or.inl rfl) hv⟩
+
 end FontVerif.IntSet
